@@ -319,6 +319,14 @@ func (x *Exec) applySpec(st *State, fs *FuncSpec, names []string, args []Val, si
 		}
 		st.ghostInt[key] = tIte(tNot(tEq(res.L[lo], "0")), "(+ "+cur+" 1)", cur)
 	}
+	{
+		key := "rcall:" + cc.label
+		cur, ok := st.ghostInt[key]
+		if !ok {
+			cur = "0"
+		}
+		st.ghostInt[key] = "(+ " + cur + " 1)"
+	}
 	bindResults(vars, sig, fs.Results, res)
 	env2 := &Env{x: x, st: st, old: pre, vars: vars}
 	for _, c := range fs.Ens {
@@ -472,6 +480,11 @@ func (x *Exec) callFunction(st *State, f *ssa.Function, bindings []Val, args []V
 			names = x.paramNames(f)
 		} else {
 			names = fs.Params
+		}
+		if inPkg && len(fs.Params) == 0 && len(bindings) > 0 {
+			fn2, fa := x.closureVars(st, f, bindings)
+			names = append(append([]string(nil), names...), fn2...)
+			args = append(append([]Val(nil), args...), fa...)
 		}
 		return true, x.applySpec(st, fs, names, args, f.Signature, callCtx{label: name, pos: pos})
 	}
@@ -645,6 +658,24 @@ func (x *Exec) goStmt(st *State, in *ssa.Go) {
 		label = x.prog.relName(fn)
 		fs = x.prog.spec.Funcs[label]
 		names = x.paramNames(fn)
+		if fs != nil && len(fs.Params) == 0 {
+			var bs []Val
+			for _, b := range f.Bindings {
+				bs = append(bs, x.value(st, b))
+			}
+			fn2, fa := x.closureVars(st, fn, bs)
+			names = append(names, fn2...)
+			args = append(args, fa...)
+		}
+	}
+	// ghost: goroutines spawned per function on this path
+	{
+		key := "go:" + label
+		cur, ok := st.ghostInt[key]
+		if !ok {
+			cur = "0"
+		}
+		st.ghostInt[key] = "(+ " + cur + " 1)"
 	}
 	x.goCensus(st, label, in.Pos())
 	if fs == nil {
@@ -658,6 +689,26 @@ func (x *Exec) goStmt(st *State, in *ssa.Go) {
 }
 
 func (x *Exec) goCensus(st *State, label string, pos token.Pos) {}
+
+// closureVars exposes the variables a closure captured, by name, with the value
+// they hold at the call / go statement (contracts of closures mention them).
+func (x *Exec) closureVars(st *State, fn *ssa.Function, bindings []Val) ([]string, []Val) {
+	var names []string
+	var vals []Val
+	for i, fv := range fn.FreeVars {
+		if i >= len(bindings) {
+			break
+		}
+		if pt, ok := fv.Type().Underlying().(*types.Pointer); ok {
+			names = append(names, fv.Name())
+			vals = append(vals, st.loadVal(bindings[i].L[0], pt.Elem()))
+		} else {
+			names = append(names, fv.Name())
+			vals = append(vals, bindings[i])
+		}
+	}
+	return names, vals
+}
 
 // chanKey names a channel by the struct field it was read from ("channel.inMsgChan").
 func (x *Exec) chanKey(v ssa.Value) string {
